@@ -26,6 +26,7 @@ ASSUMPTIONS = [
 REQUIRED_COUNTERS = ["getter_comparisons", "thread_rows_compared"]
 
 NASTY = [b" ", b"(", b")", b"\n", b"\t", b"\\", b"\xff", b"\xc3"]
+NASTY_RANDOM_EXTRA = [b"\r", b"\x0b", b"\x0c", b"\x85", b":"]
 SPECIAL_COMMS = [
     b"", b")", b"(", b"))", b"((", b") (", b"a) R 1 (b", b") S 0 0 0", b"x) Z 7 7 7 7",
     b"Uid:\t0\t0\t0", b"Gid:\t0\t0\t0", b"Threads:\t9", b"\nUid:\t0\t0\t0", b"Tgid:\t1",
@@ -33,6 +34,10 @@ SPECIAL_COMMS = [
     b"123456789012345", b"1234567890123 )", b") ) ) ) ) ) ) )", b"(((((((((((((((", b"\xff" * 15,
     b"  ", b" x", b"x ", b"0 0 0 0 0 0", b"kworker/0:1-eve", b"(sd-pam)", b"Web Content", b"a b) c",
 ]
+# bytes that some line-splitting routines treat as line boundaries (the kernel escapes only \n and \\ in Name:)
+for _sep in (b"\r", b"\x0b", b"\x0c", b"\x1c", b"\x1d", b"\x1e", b"\x85", b"\r\r"):
+    SPECIAL_COMMS += [b"x" + _sep + b"Uid:\t7\t7\t7", _sep + b"Gid:\t8\t8\t8", _sep + b"Threads:\t99", b"a" + _sep + b"b"]
+SPECIAL_COMMS = [c[:15] for c in SPECIAL_COMMS]
 STATES = ["R", "S", "D", "T", "t", "X", "Z", "P", "I", "K", "W", "x"]
 UNKNOWN_STATES = ["?", "Q", "N"]
 MAGS = [0, 1, 99, 100, 2**31 - 1, 2**31 + 1, 2**32 - 1, 2**32 + 1, 2**63 - 1, 2**63 + 1, 2**64 - 1]
@@ -58,7 +63,7 @@ def gen_comm(rng):
     if r < 0.25:
         return rng.choice(SPECIAL_COMMS)
     n = rng.choice([0, 1, 2, 3, 5, 8, 14, 15, 15])
-    alphabet = NASTY * 3 + [bytes([c]) for c in b"abz019"] + [bytes([rng.randrange(0x80, 0x100)])]
+    alphabet = NASTY * 3 + NASTY_RANDOM_EXTRA + [bytes([c]) for c in b"abz019"] + [bytes([rng.randrange(0x80, 0x100)])]
     return b"".join(rng.choice(alphabet) for _ in range(n))[:15]
 
 
